@@ -354,3 +354,60 @@ package ro
 //@   ghost n int = 0
 //@   inv i == n
 //@   on next(ctx, value) : emits Next(project_0(ctx, n), value) ; n' = n + 1
+
+// ---------------------------------------------------------------------------
+// operator_creation.go: sources (the subscribe function itself emits)
+// ---------------------------------------------------------------------------
+
+//@ operator Of
+//@   props C04 C09
+//@   on subscribe(ctx, destination) : emits loop.L0, Complete(ctx)
+
+//@ loop Of$1#0
+//@   noexit
+//@   invariant 0 <= it && it <= len(ranged)
+//@   invariant ranged == values
+//@   iteration emits destination.NextWithContext(ctx, ranged[it])
+
+//@ operator Empty
+//@   props C04 C09
+//@   on subscribe(ctx, destination) : emits Complete(ctx)
+
+//@ operator Throw
+//@   props C04 C07 C09
+//@   on subscribe(ctx, destination) : emits Error(ctx, err)
+
+//@ operator Start
+//@   props C04 C09
+//@   on subscribe(ctx, destination) : emits Next(ctx, cb_0()), Complete(ctx)
+
+//@ operator Repeat
+//@   props C04 C09
+//@   requires count >= 1
+//@   on subscribe(ctx, destination) : emits loop.L0, Complete(ctx)
+
+//@ loop Repeat$1#0
+//@   noexit
+//@   invariant 0 <= i && i <= count
+//@   iteration emits destination.NextWithContext(ctx, item)
+
+//@ operator Range
+//@   props C04 C09
+//@   on subscribe(ctx, destination) : emits loop.L0, Complete(ctx)
+
+//@ loop Range$1#0
+//@   noexit
+//@   iteration emits destination.NextWithContext(ctx, cursor)
+
+// ---------------------------------------------------------------------------
+// bridges (C17)
+// ---------------------------------------------------------------------------
+
+//@ func FromChannel$1$1
+//@   note the reader goroutine of FromChannel
+//@   props C17 C08
+//@   track destination.* loop.* select
+//@   ensures [ends-by-completion-or-done|C17] trace(loop.L0) || trace(loop.L0, destination.CompleteWithContext(ctx))
+
+//@ loop FromChannel$1$1#0
+//@   iteration emits select, destination.NextWithContext(ctx, received)
